@@ -214,6 +214,12 @@ def outer_items(fam, tier):
         for s in shp:
             out.append([list(s), None])
             out += [[list(s), list(ms)] for ms in ordered_subsets(len(s))]
+        # explicit mode lists that name a mode more than once: the operands sharing a mode apply in list order
+        # (T x_m A x_m B = T x_m (B A)); matrices only, nothing skipped
+        for s in shp:
+            if len(s) <= 3:
+                for L in (2, 3):
+                    out += [[list(s), list(ms)] for ms in itertools.product(range(len(s)), repeat=L) if len(set(ms)) < L]
         return out
     if fam == "kronecker":
         ms = [(1, 1), (1, 2), (2, 1), (2, 2), (2, 3), (3, 2)]
@@ -353,8 +359,9 @@ def inner_cases(fam, item, tier, seed):
     elif fam == "multi_mode_dot":
         shape, modes = item
         k = len(shape) if modes is None else len(modes)
-        for kinds in itertools.product("mv", repeat=k):
-            for skip in [None] + list(range(k)):
+        repeated = modes is not None and len(set(modes)) < len(modes)
+        for kinds in ([tuple("m" * k)] if repeated else itertools.product("mv", repeat=k)):
+            for skip in ([None] if repeated else [None] + list(range(k))):
                 for tr in (False, True):
                     for cplx in (False, True):
                         yield dict(base, shape=shape, modes=modes, kinds="".join(kinds), skip=skip, tr=tr, cplx=cplx)
@@ -501,13 +508,16 @@ def run_multi_mode_dot(case, rn):
     eff = list(range(n)) if modes is None else list(modes)
     t = val(shape, 0, cplx, seed)
     ops = []
+    cur = list(shape)  # current size of every mode (a mode named twice is contracted with the size the first operand left)
     for li, (mode, kd) in enumerate(zip(eff, kinds)):
-        I = shape[mode]
+        I = cur[mode]
         if kd == "v":
             ops.append(val((I,), 1 + li, cplx, seed))
         else:
             J = (I + mode) % 3 + 1
             ops.append(val((I, J) if tr else (J, I), 1 + li, cplx, seed))
+            if li != skip:
+                cur[mode] = J
     ref = ref_np(R2.multi_mode_dot(rt(t), [rt(o) for o in ops], eff, skip=skip, transpose=tr))
     applied_vec = any(kd == "v" for li, kd in enumerate(kinds) if li != skip)
     unsorted = eff != sorted(eff)
